@@ -1,5 +1,13 @@
 package main
 
+import (
+	"encoding/json"
+	"fmt"
+	"os"
+	"os/exec"
+	"path/filepath"
+)
+
 func init() {
 	// C04 purity
 	register("C04", "S-ENTRY", ruleSEntry)
@@ -88,6 +96,7 @@ func init() {
 	register("C13", "N-RESTORE", ruleNRestore)
 	register("C13", "N-PEER", ruleNPeer)
 	register("C13", "N-ITER", ruleNIter)
+	register("C13", "S-RESET", ruleSReset)
 
 	register("C07", "A-OPS", ruleAOps)
 	register("C07", "A-CELLS", ruleACells)
@@ -98,9 +107,125 @@ func init() {
 	register("C17", "G-PAIR", ruleGPair)
 	register("C17", "G-EXPECT", ruleGExpect)
 	register("C17", "T-RECOVER", ruleTRecover)
+	register("C17", "B-ARGS", ruleBArgs)
+	register("C17", "X-TOTAL", ruleXTotal)
 
 	register("C02", "S-RESET", ruleSReset)
 	register("C02", "S-PROP", ruleSProp)
+	register("C02", "S-SHARED", ruleSShared)
+	register("C02", "S-CLONE", ruleSClone)
+	register("C02", "C02-TRUTH", ruleTruth)
+	register("C02", "X-RESULT", ruleXResult)
+	register("C02", "N-RESTORE", ruleNRestore)
 }
 
-func thorough(w *World, r *Report, prop, verif string, extra map[string]interface{}) {}
+// thorough: (i) the rules again on the alternative file set (GOARCH=386), which
+// must give the same verdicts; (ii) the self-test corpus: every semantic
+// mutant of /verif/mutants that targets this property is applied to a scratch
+// copy of the repository (outside /repo and /verif, removed afterwards) and
+// analysed statically: it must be flagged; every behaviour-preserving refactor
+// must stay silent. A missed mutant lowers the reported coverage of the
+// checker; it is not a violation of the property in the repository.
+func thorough(w *World, r *Report, prop, verif string, extra map[string]interface{}) {
+	// (i)
+	os.Setenv("GOARCH", "386")
+	w2, err := loadWorld(w.Repo, "")
+	os.Unsetenv("GOARCH")
+	if err != nil {
+		r.bad("THOROUGH", "alt-fileset", "", "GOARCH=386 load failed: "+err.Error())
+	} else {
+		r2 := newReport(prop, "thorough", w2)
+		if _, err := w2.Census(); err == nil {
+			for _, f := range propRules[prop] {
+				f(w2, r2)
+			}
+		}
+		v1, v2 := map[string]bool{}, map[string]bool{}
+		for _, o := range r.Obls {
+			if o.Status == Violated || o.Status == Undecided {
+				v1[o.Key] = true
+			}
+		}
+		for _, o := range r2.Obls {
+			if o.Status == Violated || o.Status == Undecided {
+				v2[o.Key] = true
+			}
+		}
+		same := len(v1) == len(v2)
+		for k := range v1 {
+			if !v2[k] {
+				same = false
+			}
+		}
+		if same && len(r2.Obls) == len(r.Obls) {
+			r.ok("THOROUGH", "alt-fileset", "", fmt.Sprintf("GOARCH=386 file set %v: %d obligations, identical verdicts", w2.Files, len(r2.Obls)))
+		} else {
+			r.bad("THOROUGH", "alt-fileset", "", fmt.Sprintf("the rules give different verdicts on the GOARCH=386 file set (%d vs %d obligations)", len(r2.Obls), len(r.Obls)))
+			for k := range v2 {
+				if !v1[k] {
+					r.bad("THOROUGH", "alt-fileset:"+k, "", "violated only on the GOARCH=386 file set")
+				}
+			}
+		}
+		extra["alt_fileset"] = map[string]interface{}{"GOARCH": "386", "files": w2.Files, "obligations": len(r2.Obls)}
+	}
+	// (ii)
+	cmd := exec.Command("python3", filepath.Join(verif, "tools", "mutants.py"), "json", prop)
+	cmd.Env = append(os.Environ(), "VERIF_REPO="+w.Repo)
+	out, err := cmd.Output()
+	if err != nil {
+		extra["selftest_error"] = err.Error()
+		r.note("self-test corpus could not be run: %v", err)
+		return
+	}
+	var res []map[string]interface{}
+	if err := json.Unmarshal(out, &res); err != nil {
+		extra["selftest_error"] = err.Error()
+		return
+	}
+	total, flagged, refactors, silent, na := 0, 0, 0, 0, 0
+	var missed, alarms []string
+	perRule := map[string]int{}
+	for _, m := range res {
+		st, _ := m["status"].(string)
+		kind, _ := m["kind"].(string)
+		id, _ := m["id"].(string)
+		if st == "not-applicable" {
+			na++
+			continue
+		}
+		if kind == "refactor" {
+			refactors++
+			if st == "ok" {
+				silent++
+			} else {
+				alarms = append(alarms, id)
+			}
+			continue
+		}
+		total++
+		if st == "ok" || st == "ok-other-rule" {
+			flagged++
+			if rs, ok := m["rules_hit"].([]interface{}); ok {
+				for _, x := range rs {
+					perRule[fmt.Sprint(x)]++
+				}
+			}
+		} else {
+			missed = append(missed, id)
+		}
+	}
+	extra["selftest"] = map[string]interface{}{
+		"mutants": total, "mutants_flagged": flagged, "mutants_missed": missed,
+		"refactors": refactors, "refactors_silent": silent, "refactor_false_alarms": alarms,
+		"not_applicable_on_this_tree": na, "positive_controls_per_rule": perRule,
+		"explanation": "semantic mutants / behaviour-preserving refactors from /verif/mutants applied to scratch copies of the working tree and analysed statically (no code of the copies is run)",
+	}
+	if len(alarms) > 0 {
+		r.note("self-test: behaviour-preserving refactors %v were flagged (false-alarm risk of the checker)", alarms)
+	}
+	if len(missed) > 0 {
+		r.note("self-test: mutants %v were not flagged (reduced coverage of the checker)", missed)
+	}
+	fmt.Printf("xpcheck self-test property=%s mutants=%d flagged=%d refactors=%d silent=%d not_applicable=%d\n", prop, total, flagged, refactors, silent, na)
+}
